@@ -8,6 +8,7 @@ import CookModel.Lemmas.MetaDiagsFront
 import CookModel.Lemmas.MetaFrontDiags
 import CookModel.Lemmas.MetaAudit
 import CookModel.Lemmas.FrontMatterDoc
+import CookModel.Lemmas.MetaValidator
 /-
   C14  Metadata-only parsing agrees with full parsing.
 
@@ -818,5 +819,104 @@ example : ((FM.processFrontmatter (α := Rat) ⟨fun _ => .ok [(.str "a".toList,
     ((FM.processFrontmatter (α := Rat) ⟨fun _ => .ok [(.str "a".toList, .num ⟨some 1, "1".toList⟩)], none,
       ⟨[], fun _ => none⟩, fun _ => false⟩ (FM.docYaml ⟨"a: 1\n".toList, 4, ">> [mode]: x\nx\n".toList, 13⟩)).map.map List.length) =
       some 1) := by decide
+
+-- ===== w6fmrest =====
+/-! ## `ParseOptions::metadata_validator` on the `>>` path (Analysis/MetaValidator.lean)
+
+  `MV.parseRecipeV env val` / `MV.parseMetadataV env val` are `parse_with_options` /
+  `parse_metadata_with_options` with the validator `val` (`none` = no validator; `some f`: `f n key value` is
+  the verdict — `CheckResult` kind, `include`, `run_std_checks` — of the `n`-th call, 0-based; the validator is
+  a `FnMut`, so the verdict may depend on the call number).  For a `>>` entry that is not a `[config]` entry the
+  code calls it on the two `Value::String`s, pushes its diagnostic, returns when `include` is off, inserts, returns
+  when `run_std_checks` is off, and otherwise goes on as without a validator (`MV.metadataV`).  Tied to the code by
+  `recipe_fm` / `metaonly_fm` with `-` for the front-matter argument. -/
+
+/-- A validator that always answers `Ok` and leaves both options on (in particular: the default
+    `CheckOptions`) is no validator: both entry points return what they return without one. -/
+theorem C14_validator_default_verdict (env : Env) (f : Nat → SM.Y → SM.Y → FM.Verdict) (input : Str)
+    (hf : ∀ n a b, (f n a b).res = .ok ∧ (f n a b).incl = true ∧ (f n a b).runStd = true) :
+    MV.parseRecipeV (α := α) env (some f) input = parseRecipe env input ∧
+    MV.parseMetadataV (α := α) env (some f) input = parseMetadata env input := by
+  constructor
+  · unfold MV.parseRecipeV parseRecipe MV.parseEventsV parseEvents
+    simp only [MV.mvl_loop_default env input f hf]; rfl
+  · unfold MV.parseMetadataV parseMetadata MV.parseEventsV parseEvents
+    simp only [MV.mvl_loop_default env input f hf]; rfl
+
+/-- With front matter the event fold never consults the validator (the only `Metadata` events are `[config]`
+    entries, which return before the call): under every validator both entry points fold exactly as without
+    one.  The validator is then consulted by `process_frontmatter` only (`FM.processFrontmatter`,
+    `C14_front_matter_interpreted_agree`), so the call numbers of the two places never interleave. -/
+theorem C14_validator_front_matter_fold (env : Env) (val : Option (Nat → SM.Y → SM.Y → FM.Verdict)) (input : Str)
+    (fm : FrontMatter) (h : parseFrontmatter env.cs input = some fm) :
+    MV.parseRecipeV (α := α) env val input = parseRecipe env input ∧
+    MV.parseMetadataV (α := α) env val input = parseMetadata env input :=
+  MV.mvl_front_same env val input fm h
+
+/-- **`C14_agree` under a `metadata_validator`**, for `>>` entries (and front matter alike): for EVERY input,
+    environment and validator — any function of (call number, key, value), the same in both runs — whenever
+    `parse_with_options` and `parse_metadata_with_options` both have output, the metadata parts of the two results
+    are equal: the `>>` map (so the same entries were excluded by `include(false)`), the std-key locations and the
+    servings (so the same entries skipped the std checks by `run_std_checks(false)`), the old-style spans, the
+    front-matter slice and the `old_style_metadata` flag.  Reason: both parsers emit the same `Metadata` events in
+    the same order (`C14_metadata_events_agree`), so the validator sees the same sequence of calls, and what the
+    arm does to the metadata part depends on that part and the verdict only. -/
+theorem C14_agree_under_validator (env : Env) (val : Option (Nat → SM.Y → SM.Y → FM.Verdict)) (input : Str)
+    (r1 r2 : Col α) (h1 : (MV.parseRecipeV (α := α) env val input).output = some r1)
+    (h2 : (MV.parseMetadataV (α := α) env val input).output = some r2) :
+    r1.metaMap = r2.metaMap ∧ r1.metaLocs = r2.metaLocs ∧ r1.servings = r2.servings ∧
+    r1.oldStyleUsed = r2.oldStyleUsed ∧ r1.frontMatter = r2.frontMatter ∧ r1.oldStyle = r2.oldStyle := by
+  cases hfm : parseFrontmatter env.cs input with
+  | some fm =>
+    obtain ⟨e1, e2⟩ := MV.mvl_front_same (α := α) env val input fm hfm
+    rw [e1] at h1; rw [e2] at h2
+    exact C14_agree env input r1 r2 h1 h2
+  | none =>
+    have e := MV.mvl_analysis_agree env val input hfm r1 r2 h1 h2
+    exact ⟨congrArg MS.metaMap e, congrArg MS.metaLocs e, congrArg MS.servings e,
+      congrArg MS.oldStyleUsed e, congrArg MS.frontMatter e, congrArg MS.oldStyle e⟩
+
+/-- …hence the metadata a caller sees (`FM.fullMetadata`: the mapping `process_frontmatter` stores, else the `>>`
+    map) and the servings stored for scaling (`FM.fullServings`) are the same from both entry points, under every
+    validator, with or without front matter. -/
+theorem C14_agree_interpreted_under_validator (env : Env) (fe : FM.Env α) (input : Str)
+    (r1 r2 : Col α) (h1 : (MV.parseRecipeV (α := α) env fe.validator input).output = some r1)
+    (h2 : (MV.parseMetadataV (α := α) env fe.validator input).output = some r2) :
+    FM.fullMetadata fe r1 = FM.fullMetadata fe r2 ∧ FM.fullServings fe r1 = FM.fullServings fe r2 := by
+  obtain ⟨e1, _, e3, _, e5, _⟩ := C14_agree_under_validator env fe.validator input r1 r2 h1 h2
+  unfold FM.fullMetadata FM.fullServings
+  rw [e1, e3, e5]
+  exact ⟨rfl, rfl⟩
+
+/-! non-vacuity: `>> a: b⏎>> c: d⏎x`, no front matter, a validator that excludes the first entry with a warning
+    and lets the second pass without std checks: both entry points have output, the map is `c: d` in both, both
+    reports start with the validator's warning (labels: key span, value span) -/
+def C14_exInputV : List Char := ">> a: b\n>> c: d\nx".toList
+def C14_exValV : Nat → SM.Y → SM.Y → FM.Verdict := fun n _ _ => if n = 0 then ⟨.warning, false, true⟩ else ⟨.ok, true, false⟩
+
+example : parseFrontmatter C14_exCs C14_exInputV = none ∧
+    ((MV.parseRecipeV (α := Rat) C14_exEnv0 (some C14_exValV) C14_exInputV).output.map (·.metaMap)) =
+      some [("c".toList, "d".toList)] ∧
+    ((MV.parseMetadataV (α := Rat) C14_exEnv0 (some C14_exValV) C14_exInputV).output.map (·.metaMap)) =
+      some [("c".toList, "d".toList)] ∧
+    (MV.parseRecipeV (α := Rat) C14_exEnv0 (some C14_exValV) C14_exInputV).diags.toList.map (fun d => (d.kind, d.labels)) =
+      [("metadata-validator", [⟨2, 4⟩, ⟨5, 7⟩]), ("meta-deprecated", [⟨2, 7⟩, ⟨10, 15⟩])] ∧
+    (MV.parseMetadataV (α := Rat) C14_exEnv0 (some C14_exValV) C14_exInputV).diags.toList.map (fun d => (d.kind, d.labels)) =
+      [("metadata-validator", [⟨2, 4⟩, ⟨5, 7⟩]), ("meta-deprecated", [⟨2, 7⟩, ⟨10, 15⟩])] := by
+  have h : parseFrontmatter C14_exCs C14_exInputV = none := by decide
+  have hl : lex C14_exCs C14_exInputV = lexFuel C14_exCs 17 0 C14_exInputV := lexFrom_eq_fuel _ _ _ _ (by decide)
+  refine ⟨h, ?_, ?_, ?_, ?_⟩
+  · unfold MV.parseRecipeV pullEvents
+    simp only [C14_exEnv0, h, hl]
+    decide +kernel
+  · unfold MV.parseMetadataV pullMetaEvents
+    simp only [C14_exEnv0, h, hl]
+    decide +kernel
+  · unfold MV.parseRecipeV pullEvents
+    simp only [C14_exEnv0, h, hl]
+    decide +kernel
+  · unfold MV.parseMetadataV pullMetaEvents
+    simp only [C14_exEnv0, h, hl]
+    decide +kernel
 
 end Cook
